@@ -12,6 +12,7 @@ import (
 	"fmt"
 	"os"
 	"strconv"
+	"strings"
 )
 
 func main() {
@@ -37,7 +38,17 @@ func main() {
 		r := &Rng{s: seed*0x9E3779B97F4A7C15 + 0x1234567}
 		fmt.Fprintf(out, "transcript %s %s %d\n", prop, tier, seed)
 		runCorpus(prop, out, st)
-		gen(prop, tier, r, out, st)
+		func() {
+			// the generators assume what the properties promise (e.g. capacity >= length); when the
+			// implementation breaks such a promise a generator may index out of range. That is reported
+			// in the transcript (the driver turns it into a divergence), not as a harness failure.
+			defer func() {
+				if e := recover(); e != nil {
+					fmt.Fprintf(out, "gencrash %s\n", strings.ReplaceAll(fmt.Sprint(e), " ", "_"))
+				}
+			}()
+			gen(prop, tier, r, out, st)
+		}()
 		out.Flush()
 		f.Close()
 		st.Write(os.Args[6])
